@@ -568,6 +568,11 @@ where
             cond(),
         ),
         "real_de" => de::real_de(de::RealProblemParameters { population_size: u(p, "population_size"), y: u(p, "y"), f: f(p, "f"), pc: f(p, "pc") }, cond()),
+        "real_pso|evals" => pso::real_pso(
+            pso::RealProblemParameters { num_particles: u(p, "num_particles"), start_weight: f(p, "start_weight"), end_weight: f(p, "end_weight"), c_one: f(p, "c_one"), c_two: f(p, "c_two"), v_max: f(p, "v_max") },
+            // the evaluation budget is left during the first two passes only; the run then lasts max(n, 2) passes
+            LessThanN::evaluations(2 * u(p, "num_particles") + 1) | LessThanN::iterations(n),
+        ),
         "real_pso" => pso::real_pso(
             pso::RealProblemParameters { num_particles: u(p, "num_particles"), start_weight: f(p, "start_weight"), end_weight: f(p, "end_weight"), c_one: f(p, "c_one"), c_two: f(p, "c_two"), v_max: f(p, "v_max") },
             cond(),
@@ -758,7 +763,7 @@ pub fn run_spec(out: &mut Out, run: u64, spec: &Value) {
         "real" => {
             let mut problem = RealProblem::new(prob["f"].as_u64().unwrap_or(0) as u8, prob["dim"].as_u64().unwrap() as usize, prob["lo"].as_f64().unwrap(), prob["hi"].as_f64().unwrap());
             problem.hetero = prob["hetero"].as_u64() == Some(1);
-            go!(problem, real_template::<RealProblem>(name, params, n), super::templates_extra::real_extra(name, params))
+            go!(problem, real_template::<RealProblem>(name, params, n), super::templates_extra::real_extra(name, params, n))
         }
         "bits" => {
             let problem = BitProblem::new(prob["dim"].as_u64().unwrap() as usize);
